@@ -36,7 +36,7 @@ var c07Dims = []struct {
 	Vals []string
 }{
 	{"spec", []string{"null-node", "null-branch", "null-branching", "null-branches", "unknown-target", "unknown-interpreter", "unknown-branchtype", "unknown-patternsyntax", "nonstring-source", "action-on-message-node", "empty-doc", "wrong-typed-nodes", "nodes-null", "no-error-node", "custom-error-node", "bad-json-pattern", "null-guard", "null-action", "null-pattern", "scalar-pattern", "empty-target", "not-compiled", "array-patterns", "paramspecs-odd", "boot-toob", "meta-fields"}},
-	{"state", []string{"nil-bindings", "permanent", "unknown-node", "empty-node-name", "at-error-node", "reloaded-after-failure", "in-memory-after-failure"}},
+	{"state", []string{"nil-bindings", "permanent", "unknown-node", "empty-node-name", "at-error-node", "reloaded-after-failure", "in-memory-after-failure", "unknown-node-long", "unknown-node-multibyte", "unknown-node-invalid-utf8", "unknown-node-control-chars"}},
 	{"msg", []string{"null", "scalar", "deep", "none", "string-with-question-mark", "go-typed"}},
 	{"ctl", []string{"nil", "limit-zero", "limit-negative", "breakpoint", "nil-breakpoints-huge-limit"}},
 	{"props", []string{"nil", "nested"}},
@@ -263,6 +263,7 @@ func c07Build(cs c07Case) (as *rstep.ASpec, spec *core.Spec, loadErr error, appl
 			spec.ToobSource = &core.ActionSource{Source: "return null;"}
 		case "meta-fields":
 			spec.Uses, spec.Version, spec.Id, spec.Doc, spec.NoNewMachines = []string{"", "timers", ""}, "?v", "", "?doc", true
+			spec.Name = strings.Repeat("\u99c5", 40) + "\xff%s"
 		}
 		return as, spec, nil, true
 	}
@@ -335,6 +336,7 @@ func c07Build(cs c07Case) (as *rstep.ASpec, spec *core.Spec, loadErr error, appl
 	case "meta-fields":
 		doc["uses"], doc["version"], doc["id"], doc["doc"] = []interface{}{"", "timers", nil}, "?v", "", "?doc"
 		doc[k("noNewMachined")] = true
+		doc["name"] = strings.Repeat("\u99c5", 40) + "%s"
 	}
 	spec = &core.Spec{}
 	switch cs.Base {
@@ -410,6 +412,14 @@ func c07Run(c *vh.Ctx, cs c07Case) (clause, detail string, nontrivial bool) {
 		node = "limbo"
 	case "empty-node-name":
 		node = ""
+	case "unknown-node-long":
+		node = strings.Repeat("n", 5000)
+	case "unknown-node-multibyte":
+		node = strings.Repeat("\u99c5", 40) + "\U0001F600" // 124 bytes, 41 characters
+	case "unknown-node-invalid-utf8":
+		node = "caf\xe9\xff\xfe" + strings.Repeat("\xc3", 70)
+	case "unknown-node-control-chars":
+		node = "a\x00b\nc\"d'e\\f%s%d{}"
 	case "at-error-node":
 		node = "error"
 	case "reloaded-after-failure":
